@@ -8,7 +8,9 @@ PROP = {
     "theorems": ["Gnmi.C08." + t for t in [
         "writer_independent_of_senders", "writer_enabled_iff", "others_progress", "own_steps_invisible", "others_run_without",
         "backlog_bound", "timer_armed_only_in_send", "expire_enabled_iff", "stalled_send_terminates", "ended_stays_silent",
-        "pending_dups_exact", "resume_newest_with_dups"]],
+        "pending_dups_exact", "resume_newest_with_dups",
+        # bLTSFIX: the timer is armed around the Send of the sync marker too (repair of D24 followed by the LTS)
+        "timer_off_outside_send", "stalled_marker_send_terminates", "stall_persists"]],
     "pre": [facts.make_step(["subscribe.feed.calls", "coalesce.Insert.blocking", "subscribe.send.aclBeforeSend",
                              "subscribe.timer.stoppedAtCreation", "subscribe.sender.loop"])],
     "components": [su_component("c08", 300, 3000),
@@ -25,7 +27,12 @@ PROP = {
                       "value and a dup count equal to the notifications coalesced into it). Partial: actual latencies and the Go scheduler are "
                       "outside the model; tied to the code by facts (the feed callback only calls Queue.Insert, Insert never blocks, timer armed "
                       "only around Send) and the su correspondence with gated in-memory streams (stalls, expiry with a shortened timeout, resumed "
-                      "subscribers: conserved insert counts and newest values compared with the model).",
+                      "subscribers: conserved insert counts and newest values compared with the model). The LTS follows the repair of "
+                      "D24: the timer is armed exactly while a Send is pending, of a data response (sending) or of the sync marker "
+                      "(sendSync) — timer_armed_only_in_send, timer_off_outside_send; stalled_send_terminates / "
+                      "stalled_marker_send_terminates cover a client that stops reading before the sync marker; stall_persists: a gated "
+                      "pending Send stays pending, armed and silent under every step of the system except the subscriber's own expire, "
+                      "cancel, eof or gateOpen.",
         "level_note": "Trusted: Lean kernel; the LTS as a description of the code (facts + gated-stream correspondence). Wall-clock behaviour is observed, not proved.",
         "technique": "Lean 4 proof (LTS enabledness and invariants over all interleavings) + regenerated source facts + gated-stream correspondence on the real Subscribe server",
     },
